@@ -4,7 +4,7 @@ search:         p == q must imply equal answers wherever both are defined; refle
 import itertools
 
 from common import call, enc, eval_codes, gen, main, rng_of
-from optcommon import atoms_defined
+from optcommon import atoms_defined, skey
 
 from predicate import can_optimize, optimize
 from predicate import predicate as PP
@@ -29,6 +29,19 @@ def grid():
     for op in ("and", "or", "xor"):
         ps += [gen.mk(op, a, b), gen.mk(op, b, a), gen.mk(op, a, c), gen.mk(op, gen.mk(op, a, b), c), gen.mk(op, c, gen.mk(op, b, a))]
     ps += [gen.mk("not", a), gen.mk("not", b), gen.mk("not", gen.mk("not", a))]
+    return ps
+
+
+def extra_grid():
+    """search only (not every member is a term of the model): repeated operands, twins that print alike, closures"""
+    a, b, c = PP.GePredicate(v=0), PP.LePredicate(v=10), PP.EqPredicate(v=1)
+    ps = []
+    for op in ("and", "or", "xor"):
+        ps += [gen.mk(op, a, b), gen.mk(op, a, a), gen.mk(op, b, b), gen.mk(op, b, a), gen.mk(op, a, c), gen.mk(op, c, c),
+               gen.mk(op, gen.mk(op, a, b), gen.mk(op, a, b)), gen.mk(op, gen.mk(op, a, b), gen.mk(op, a, a))]
+    for ma, mb in gen.twin_makers():
+        ps += [ma(), mb(), ma()]
+        ps += [gen.mk("or", ma(), ma()), gen.mk("or", ma(), mb()), gen.mk("and", mb(), ma()), gen.mk("and", mb(), mb())]
     return ps
 
 
@@ -62,7 +75,8 @@ def correspondence(payload):
 
 
 def search(payload):
-    ps = grid()
+    ps = grid() + extra_grid()
+    values = VALUES + [v for v in gen.TWIN_VALUES if not any(v is w or (type(v) is type(w) and v == w) for w in VALUES)] + [11, -1, 100]
     fails, n = [], 0
     for i, p in enumerate(ps):
         if not (p == p):
@@ -72,25 +86,35 @@ def search(payload):
             if e != (q == p):
                 fails.append({"p": repr(p), "q": repr(q), "kind": "not symmetric"})
             if e and i != j and "this_p" not in repr(p) and "root_p" not in repr(p):
-                for x in VALUES:
+                for x in values:
                     if not (atoms_defined(p, x) and atoms_defined(q, x)):
                         continue
                     n += 1
                     if call(p, x) != call(q, x):
-                        fails.append({"p": repr(p), "q": repr(q), "x": repr(x), "kind": "p == q but p(x) != q(x)",
+                        fails.append({"p": repr(p), "q": repr(q), "p_structure": skey(p), "q_structure": skey(q), "x": repr(x), "kind": "p == q but p(x) != q(x)",
                                       "p(x)": repr(call(p, x)), "q(x)": repr(call(q, x))})
                         break
         if len(fails) >= 5:
             break
     trees = [gen.build(gen.random_shape(rng_of(payload), 6, 3), [lambda k=k: ps[k] for k in (0, 7, 20, 30, 45, 60)]) for _ in range(300)]
-    for t in trees + ps:
+    # twins in sequence, in both orders, in this one process (anything remembered under repr() confuses them)
+    seq = []
+    for ma, mb in gen.twin_makers():
+        for op in ("or", "and", "xor"):
+            seq += [gen.mk(op, ma(), ma()), gen.mk(op, ma(), mb()), gen.mk(op, mb(), mb()), gen.mk(op, mb(), ma()), gen.mk(op, ma(), ma())]
+    history = []
+    for t in trees + ps + seq + seq[::-1]:
         try:
             o = optimize(t)
         except Exception:  # noqa: BLE001
             continue
         n += 1
+        history.append(repr(t))
         if can_optimize(t) != (o != t):
-            fails.append({"p": repr(t), "kind": "can_optimize(p) differs from optimize(p) != p"})
+            fails.append({"p": repr(t), "p_structure": skey(t), "kind": "can_optimize(p) differs from optimize(p) != p", "can_optimize": can_optimize(t),
+                          "optimize(p)": repr(o), "asked_before_in_this_process": history[-6:-1]})
+            if len(fails) >= 8:
+                break
     return {"evaluations": n, "failures": fails[:5], "known_hits": [], "samples": [{"p": repr(ps[3]), "q": repr(ps[3])}]}
 
 
@@ -98,4 +122,5 @@ def replay(payload):
     return {"fails": True, "input": payload["replay"].get("input")}
 
 
-main({"correspondence": correspondence, "search": search, "replay": replay})
+if __name__ == "__main__":
+    main({"correspondence": correspondence, "search": search, "replay": replay})
